@@ -196,9 +196,14 @@ structure Tx where
   post : List (Nat × Nat)
   deriving DecidableEq, Repr
 
+def fragOf (d : List (Nat × FVal)) (f : Nat) : Option (List Nat) :=
+  match getF d f with
+  | .text ws => some ws
+  | _ => none
+
 /-- `IndexHooks::bm25_index_value`: `None` when no configured field carries a text. -/
 def textOf (fields : List Nat) (d : List (Nat × FVal)) : Option (List Nat) :=
-  let frags := fields.filterMap (fun f => match getF d f with | .text ws => some ws | _ => none)
+  let frags := fields.filterMap (fragOf d)
   if frags.isEmpty then none else some frags.flatten
 
 def addTok (p : List (Nat × Nat)) (id : Nat) (w : Nat) : List (Nat × Nat) :=
@@ -213,6 +218,15 @@ def txInsert (t : Tx) (id : Nat) (ws : List Nat) : Except Err Tx :=
 /-- `BM25::remove` -/
 def txRemove (t : Tx) (id : Nat) (ws : List Nat) : Tx :=
   { t with docs := t.docs.filter (fun i => i != id), post := t.post.filter (fun p => !(p.2 == id && ws.contains p.1)) }
+
+/-- remove what the hook returned for the document, if it returned anything -/
+def txRemoveO (t : Tx) (id : Nat) : Option (List Nat) → Tx
+  | none => t
+  | some ws => txRemove t id ws
+
+def txInsertO (t : Tx) (id : Nat) : Option (List Nat) → Except Err Tx
+  | none => .ok t
+  | some ws => txInsert t id ws
 
 structure Hn where
   field : Nat
@@ -235,6 +249,14 @@ def hnInsert (h : Hn) (id : Nat) (n : Nat) : Except Err Hn :=
 /-- `Hnsw::remove` -/
 def hnRemove (h : Hn) (id : Nat) : Hn :=
   { h with ids := h.ids.filter (fun i => i != id) }
+
+def hnRemoveO (h : Hn) (id : Nat) : Option Nat → Hn
+  | none => h
+  | some _ => hnRemove h id
+
+def hnInsertO (h : Hn) (id : Nat) : Option Nat → Except Err Hn
+  | none => .ok h
+  | some n => hnInsert h id n
 
 -- ------------------------------------------------------------------------------------------
 -- index phases with rollback
@@ -306,31 +328,21 @@ def addBtB (id : Nat) (d : List (Nat × FVal)) (x : BtDef × List (Key × Nat)) 
 
 /-- `bm25_inserted.insert` follows the successful insert. -/
 def addTxF (id : Nat) (d : List (Nat × FVal)) (t : Tx) : Fwd Tx :=
-  match textOf t.fields d with
-  | none => { res := t, err := none, restored := true }
-  | some ws =>
-    match txInsert t id ws with
-    | .error e => { res := t, err := some e, restored := true }
-    | .ok t' => { res := t', err := none, restored := true }
+  match txInsertO t id (textOf t.fields d) with
+  | .error e => { res := t, err := some e, restored := true }
+  | .ok t' => { res := t', err := none, restored := true }
 
 def addTxB (id : Nat) (d : List (Nat × FVal)) (t : Tx) : Tx × Bool :=
-  match textOf t.fields d with
-  | none => (t, true)
-  | some ws => (txRemove t id ws, true)
+  (txRemoveO t id (textOf t.fields d), true)
 
 /-- `hnsw_inserted.insert(index, id)` precedes `index.insert(..)?`. -/
 def addHnF (id : Nat) (d : List (Nat × FVal)) (h : Hn) : Fwd Hn :=
-  match vecOf h.field d with
-  | none => { res := h, err := none, restored := true }
-  | some n =>
-    match hnInsert h id n with
-    | .error e => { res := hnRemove h id, err := some e, restored := true }
-    | .ok h' => { res := h', err := none, restored := true }
+  match hnInsertO h id (vecOf h.field d) with
+  | .error e => { res := hnRemoveO h id (vecOf h.field d), err := some e, restored := true }
+  | .ok h' => { res := h', err := none, restored := true }
 
 def addHnB (id : Nat) (d : List (Nat × FVal)) (h : Hn) : Hn × Bool :=
-  match vecOf h.field d with
-  | none => (h, true)
-  | some _ => (hnRemove h id, true)
+  (hnRemoveO h id (vecOf h.field d), true)
 
 -- update_impl -----------------------------------------------------------------------------
 
@@ -353,58 +365,47 @@ def updBtB (id : Nat) (o n : List (Nat × FVal)) (changed : List Nat) (x : BtDef
     | .ok r' => ((x.1, r'), true)
   else (x, true)
 
-def txReinsert (t : Tx) (id : Nat) : Option (List Nat) → Tx × Bool
-  | none => (t, true)
-  | some ws =>
-    match txInsert t id ws with
-    | .error _ => (t, false)
-    | .ok t' => (t', true)
+def txReinsert (t : Tx) (id : Nat) (o : Option (List Nat)) : Tx × Bool :=
+  match txInsertO t id o with
+  | .error _ => (t, false)
+  | .ok t' => (t', true)
 
 def updTxF (id : Nat) (o n : List (Nat × FVal)) (changed : List Nat) (t : Tx) : Fwd Tx :=
   if touches t.fields changed then
     let ot := textOf t.fields o
-    let t1 := match ot with | some ws => txRemove t id ws | none => t
-    match textOf t.fields n with
-    | none => { res := t1, err := none, restored := true }
-    | some ws =>
-      match txInsert t1 id ws with
-      | .ok t2 => { res := t2, err := none, restored := true }
-      | .error e =>
-        let b := txReinsert t1 id ot
-        { res := b.1, err := some e, restored := b.2 }
+    let t1 := txRemoveO t id ot
+    match txInsertO t1 id (textOf t.fields n) with
+    | .ok t2 => { res := t2, err := none, restored := true }
+    | .error e =>
+      let b := txReinsert t1 id ot
+      { res := b.1, err := some e, restored := b.2 }
   else { res := t, err := none, restored := true }
 
 def updTxB (id : Nat) (o n : List (Nat × FVal)) (changed : List Nat) (t : Tx) : Tx × Bool :=
   if touches t.fields changed then
-    let t1 := match textOf t.fields n with | some ws => txRemove t id ws | none => t
-    txReinsert t1 id (textOf t.fields o)
+    txReinsert (txRemoveO t id (textOf t.fields n)) id (textOf t.fields o)
   else (t, true)
 
-def hnReinsert (h : Hn) (id : Nat) : Option Nat → Hn × Bool
-  | none => (h, true)
-  | some n =>
-    match hnInsert h id n with
-    | .error _ => (h, false)
-    | .ok h' => (h', true)
+def hnReinsert (h : Hn) (id : Nat) (o : Option Nat) : Hn × Bool :=
+  match hnInsertO h id o with
+  | .error _ => (h, false)
+  | .ok h' => (h', true)
 
 def updHnF (id : Nat) (o n : List (Nat × FVal)) (changed : List Nat) (h : Hn) : Fwd Hn :=
   if changed.contains h.field then
     let ov := vecOf h.field o
-    let h1 := match ov with | some _ => hnRemove h id | none => h
-    match vecOf h.field n with
-    | none => { res := h1, err := none, restored := true }
-    | some k =>
-      match hnInsert h1 id k with
-      | .ok h2 => { res := h2, err := none, restored := true }
-      | .error e =>
-        let b := hnReinsert (hnRemove h1 id) id ov
-        { res := b.1, err := some e, restored := b.2 }
+    let h1 := hnRemoveO h id ov
+    match hnInsertO h1 id (vecOf h.field n) with
+    | .ok h2 => { res := h2, err := none, restored := true }
+    | .error e =>
+      -- `hnsw_inserted` holds the failing index: remove(id), then re-insert the old vector
+      let b := hnReinsert (hnRemoveO h1 id (vecOf h.field n)) id ov
+      { res := b.1, err := some e, restored := b.2 }
   else { res := h, err := none, restored := true }
 
 def updHnB (id : Nat) (o n : List (Nat × FVal)) (changed : List Nat) (h : Hn) : Hn × Bool :=
   if changed.contains h.field then
-    let h1 := match vecOf h.field n with | some _ => hnRemove h id | none => h
-    hnReinsert h1 id (vecOf h.field o)
+    hnReinsert (hnRemoveO h id (vecOf h.field n)) id (vecOf h.field o)
   else (h, true)
 
 -- ------------------------------------------------------------------------------------------
@@ -521,46 +522,29 @@ def remove (s : State) (id : Nat) : State × Out :=
     | some d =>
       let ix' : Idx :=
         { bt := s.ix.bt.map (fun x => (x.1, btRemove x.2 id (valueOf x.1 d))),
-          tx := s.ix.tx.map (fun t => match textOf t.fields d with | some ws => txRemove t id ws | none => t),
-          hn := s.ix.hn.map (fun h => match vecOf h.field d with | some _ => hnRemove h id | none => h) }
+          tx := s.ix.tx.map (fun t => txRemoveO t id (textOf t.fields d)),
+          hn := s.ix.hn.map (fun h => hnRemoveO h id (vecOf h.field d)) }
       ({ s with ix := ix', docs := delD s.docs id, ids := s.ids.filter (fun i => i != id), dirty := true }, .removed true)
 
-/-- backfill: every live document in ascending id order; the first failure aborts the creation -/
-def backfillBt (df : BtDef) (docs : List (Nat × List (Nat × FVal))) : List Nat → List (Key × Nat) → Except Err (List (Key × Nat))
-  | [], r => .ok r
-  | i :: rest, r =>
+/-- backfill (`for_each_existing_document`): every live document in ascending id order, a document
+object that is missing is skipped, the first failing insert aborts the creation -/
+def backfill {α : Type} (ins : α → Nat → List (Nat × FVal) → Except Err α) (docs : List (Nat × List (Nat × FVal))) :
+    List Nat → α → Except Err α
+  | [], a => .ok a
+  | i :: rest, a =>
     match lookupD docs i with
-    | none => backfillBt df docs rest r
+    | none => backfill ins docs rest a
     | some d =>
-      match btInsert df.unique r i (valueOf df d) with
+      match ins a i d with
       | .error e => .error e
-      | .ok r' => backfillBt df docs rest r'
+      | .ok a' => backfill ins docs rest a'
 
-def backfillTx (docs : List (Nat × List (Nat × FVal))) : List Nat → Tx → Except Err Tx
-  | [], t => .ok t
-  | i :: rest, t =>
-    match lookupD docs i with
-    | none => backfillTx docs rest t
-    | some d =>
-      match textOf t.fields d with
-      | none => backfillTx docs rest t
-      | some ws =>
-        match txInsert t i ws with
-        | .error e => .error e
-        | .ok t' => backfillTx docs rest t'
+def insBt (df : BtDef) (r : List (Key × Nat)) (i : Nat) (d : List (Nat × FVal)) : Except Err (List (Key × Nat)) :=
+  btInsert df.unique r i (valueOf df d)
 
-def backfillHn (docs : List (Nat × List (Nat × FVal))) : List Nat → Hn → Except Err Hn
-  | [], h => .ok h
-  | i :: rest, h =>
-    match lookupD docs i with
-    | none => backfillHn docs rest h
-    | some d =>
-      match vecOf h.field d with
-      | none => backfillHn docs rest h
-      | some n =>
-        match hnInsert h i n with
-        | .error e => .error e
-        | .ok h' => backfillHn docs rest h'
+def insTx (t : Tx) (i : Nat) (d : List (Nat × FVal)) : Except Err Tx := txInsertO t i (textOf t.fields d)
+
+def insHn (h : Hn) (i : Nat) (d : List (Nat × FVal)) : Except Err Hn := hnInsertO h i (vecOf h.field d)
 
 def insertAsc (i : Nat) : List Nat → List Nat
   | [] => [i]
@@ -588,7 +572,7 @@ def createBt (s : State) (name : Nat) (fields : List Nat) : State × Out :=
   else if fields.length == 1 && !fields.all (keyable s.schema) then (s, .err .index)
   else
     let df : BtDef := { name := name, fields := fields, unique := if fields.length == 1 then fields.all (fieldUnique s.schema) else true }
-    match backfillBt df s.docs (sortAsc s.ids) [] with
+    match backfill (insBt df) s.docs (sortAsc s.ids) [] with
     | .error e => (s, .err e)
     | .ok r =>
       let bt' := if df.unique then (df, r) :: s.ix.bt else s.ix.bt ++ [(df, r)]
@@ -600,7 +584,7 @@ def createTx (s : State) (fields : List Nat) : State × Out :=
   else if s.ix.tx.any (fun t => t.fields == fields) then (s, .err .exists)
   else if !fields.all (fun f => (lookupS s.schema f).isSome) then (s, .err .invalid)
   else
-    match backfillTx s.docs (sortAsc s.ids) { fields := fields, docs := [], post := [] } with
+    match backfill insTx s.docs (sortAsc s.ids) { fields := fields, docs := [], post := [] } with
     | .error e => (s, .err e)
     | .ok t => ({ s with ix := { s.ix with tx := s.ix.tx ++ [t] }, dirty := true }, .ok)
 
@@ -613,7 +597,7 @@ def createHn (s : State) (field dim : Nat) : State × Out :=
     | some fd =>
       if !(fd.kind == .vec && !fd.opt) then (s, .err .invalid)
       else
-        match backfillHn s.docs (sortAsc s.ids) { field := field, dim := dim, ids := [] } with
+        match backfill insHn s.docs (sortAsc s.ids) { field := field, dim := dim, ids := [] } with
         | .error e => (s, .err e)
         | .ok h => ({ s with ix := { s.ix with hn := s.ix.hn ++ [h] }, dirty := true }, .ok)
 
@@ -660,6 +644,17 @@ def step (s : State) : Op → State × Out
     else
       let s := flush s
       ({ s with maxId := s.savedMax, ix := { s.ix with bt := reorder s.ix.bt } }, .ok)
+
+-- observation side ---------------------------------------------------------------------------
+
+/-- ids answered by a filter over one B-tree index: the postings of every key the predicate accepts
+(`Eq k`, a range, any `RangeQuery` tree — all of them are predicates on keys) -/
+def btQuery (r : List (Key × Nat)) (q : Key → Bool) : List Nat :=
+  (r.filter (fun p => q p.1)).map (fun p => p.2)
+
+/-- documents a term query returns -/
+def txQuery (t : Tx) (w : Nat) : List Nat :=
+  (t.post.filter (fun p => p.1 == w)).map (fun p => p.2)
 
 def run (s : State) : List Op → State
   | [] => s
